@@ -185,7 +185,8 @@ def run_check(pm, prop, tier, verbose):
         }
         if witness is None:
             for f in native_fail:
-                if f.func == r.contract.qualname and not known_for_failure(known, prop, f):
+                covers = getattr(pm, "NATIVE_COVERS", {}).get(r.contract.qualname, [])
+                if (f.func == r.contract.qualname or f.func in covers) and not known_for_failure(known, prop, f):
                     witness = f
                     payload["native"] = f.to_json()
                     attached.add(id(f))
